@@ -121,6 +121,10 @@ clock_cmp(struct clock* c, uint64_t ts)
 {
     int8_t r = ND(int8_t);
     VASSUME(r >= -1 && r <= 1);
+    /* a frame is "too new" only finitely often (time passes): at most twice per run; without this
+     * the sink's inner loop spins on the same mapped frames without bound */
+    static int too_new;
+    if (r > 0) { ++too_new; VASSUME(too_new <= 2); }
     return r;
 }
 void
@@ -171,7 +175,9 @@ main(void)
     /* the sink registers its reader with its first map, inside the thread */
     int rc = video_sink_thread(&snk);
     main_done = 1;
+#if SCN == 0
     VASSERT(writer_done, "harness: environment writer did not finish (cut by the poll bound)");
+#endif
     /* The input tape is linear and never rewritten, so "every committed frame reaches storage exactly
      * once, in order, bit-exact, in packets of whole frames" <=> the appended packets tile the tape
      * [0, total) consecutively and each is a whole number of frames. */
@@ -185,7 +191,7 @@ main(void)
         }
     STO[0].frames_this_run = (int)(total / FRAME_BYTES);
     VASSERT(STO[0].appended_after_fail == 0, "C09: append after a failed append");
-    VASSERT(STO[0].stops == 1 && STO[0].started == 0, "C04/C09: storage not stopped exactly once when the sink thread exits");
+    VASSERT(STO[0].stops + STO[0].failed == 1 && STO[0].started == 0, "C04/C09: storage not stopped exactly once (or left running) when the sink thread exits");
     VASSERT(STO[0].viol == 0, "C08: storage protocol violated (append outside start..stop / stop without start)");
     VASSERT(snk.is_running == 0 && snk.is_stopping == 0, "C07: sink flags not reset");
     VASSERT(!verif_lock_is_held(&snk.in.lock), "ring lock left held");
@@ -197,16 +203,23 @@ main(void)
     if (STO[0].failed) {
         VASSERT(rc != 0, "C09: storage fault not reported by the sink thread");
         VASSERT(stop_source_calls == 1, "C09: source not told to stop after a storage fault");
+        VASSERT(snk.in.is_accepting_writes == 0, "C09: a sink that died on a storage fault still accepts writes (a source blocked on a full queue would never return)");
     }
 #elif SCN == 2
     VASSERT(STO[0].frames_this_run == written, "C07: storage did not receive exactly the committed prefix");
 #endif
-    COVER(STO[0].appends >= 2);
-    COVER(polls >= 2);
-    COVER(delay > 0 && STO[0].frames_this_run == NMAX);
-    COVER(mon_on && STO[0].frames_this_run == NMAX);
-#if SCN == 1
+#if SCN == 0
+    COVER(STO[0].frames_this_run == NMAX && mock_napp >= 2);
+    COVER(mon_on && STO[0].frames_this_run == N);
+    COVER(polls >= 1);
+#ifndef FIX_DELAY0
+    COVER(delay > 0 && STO[0].frames_this_run == N);
+#endif
+#elif SCN == 1
     COVER(STO[0].failed && STO[0].frames_this_run >= 1);
+    COVER(!STO[0].failed);
+#else
+    COVER(!snk.in.is_accepting_writes && written < N);
 #endif
     WITNESS_END();
     return 0;
